@@ -16,7 +16,10 @@ PARALLEL = True
 RULE = ('option combinations (require_csrf True/False/None or a non-bool 0/1/\'\'/str; set_default_csrf_options absent or with '
         'any subset of its arguments incl. token/header None or empty, custom safe methods given as tuple/list/set/frozenset/'
         'generator/iterator, check_origin / allow_no_origin / require_csrf as bool or truthy/falsy non-bool, callbacks returning '
-        'True/False/None/0/1/str/[]; exception views; 0-3 other views with their own require_csrf in the same application; '
+        'True/False/None/0/1/str/[]; the directive\'s leading options passed positionally; the view a function or a class whose '
+        '__view_defaults__ (decorator / attribute / inherited) carry their own require_csrf next to the call-level one (absent, '
+        'explicit None, True, False, other), registered by add_view, add_exception_view or @view_config + scan; storage '
+        'policies constructed with their own cookie name / session key; exception views; 0-3 other views with their own require_csrf in the same application; '
         'session, legacy-session and cookie storage (cookie value plain or quoted); trusted origins from settings or a caller '
         'list/tuple; the two functions called through pyramid.csrf or the deprecated pyramid.session aliases) x sequences of 1-4 requests sharing one trusted-origins list (method, scheme, Host/port or '
         'SERVER_NAME, Origin/Referer variants incl. null, lists, upper case, default ports, userinfo, brackets; token in '
@@ -48,7 +51,10 @@ TRUSTED = ['translator harness/c12/translate.py: its PRIMITIVE TABLE (which Pyth
            'NOT trusted: it is regenerated into coq/Gen/Facts_C12_prog.v every run and proved equal to the reference model',
            'hand-written reference model coq/Model/C12.v (the theorems are about it and, through gen_*_is_model, about the '
            'regenerated program); shape pins remain for the untranslated leaves util.bytes_/text_, '
-           'settings.aslist(_cronly) and the session plumbing (manage_accessed/changed, CookieSession.__init__/changed/_set_cookie)',
+           'settings.aslist(_cronly), the session plumbing (manage_accessed/changed, CookieSession.__init__/changed/_set_cookie) '
+           'and the route of the require_csrf view option outside the anchor files (config.views.viewdefaults(+wrapper), '
+           '_derive_view, pyramid.view.view_defaults, view_config.__init__/__call__/callback; fact: add_view is '
+           '@viewdefaults @action_method and hands require_csrf unchanged to _derive_view)',
            'WebOb 1.8 fragments modelled by hand: headers._trans_name, Request.host/domain/host_port, MultiDict last-value '
            'lookup (validated by correspondence only)',
            'urllib.parse.urlsplit fragment modelled by hand (characterised by the C12_urlparse_* theorems, exhaustive '
@@ -74,6 +80,9 @@ LEVEL_TEXT = ('Machine-checked theorems for all configurations, requests and his
               'none is stored, every argument of set_default_csrf_options reaches the option of the same name (omitted = documented '
               'default), a view body calling get_csrf_token / new_csrf_token never changes the verdict of its own request, '
               'new_csrf_token installs the fresh token and a token handed out before the rotation is refused afterwards, '
+              'the require_csrf view option follows the documented two-level precedence (whatever the add_view / view_config call '
+              'passes, an explicit None included, replaces the class-level __view_defaults__ value; then the configured default '
+              'decides), the documented positional order of set_default_csrf_options is the signature order (fact), '
               'the urlsplit fragment extracts scheme/authority of scheme://authority[/...] and raises exactly on '
               'bad brackets; refutations for the unrepaired parameter values.')
 LEVEL_NOTE = ('Trusted: Coq kernel; the translator\'s primitive table and statement rules (fail-closed: anything outside '
@@ -169,6 +178,24 @@ def valid(case):
         ex_ = cfg['explicit']
         if not (ex_ is None or isinstance(ex_, bool) or (isinstance(ex_, str) and ex_ in EXPLICIT_OTHER)):
             return False
+        vc = cfg.get('view_class')
+        if vc is not None:
+            if set(vc) - {'how', 'require_csrf'} or vc.get('how') not in ('decorator', 'attr', 'inherited'):
+                return False
+            cv = vc.get('require_csrf')
+            if not (cv is None or isinstance(cv, bool) or (isinstance(cv, str) and cv in NONBOOL)):
+                return False
+        if cfg.get('explicit_none_passed') not in (None, True, False) or (cfg.get('explicit_none_passed') and ex_ is not None):
+            return False
+        if cfg.get('exc_api') and not (cfg['exception_only'] and ex_ is False and vc is None):
+            return False
+        pa_ = cfg.get('policy_args')
+        if pa_ is not None and not (cfg['storage'] in ('cookie', 'session') and set(pa_) <= {'name', 'positional'}
+                                    and isinstance(pa_.get('name'), str) and pa_['name'] and pa_['name'] != 'session'
+                                    and all(c in COOKIE_SAFE for c in pa_['name'])):
+            return False
+        if cfg.get('route') not in (None, 'scan') or (cfg.get('route') and cfg.get('exc_api')):
+            return False
         for dv in cfg.get('decoys', []):
             if not (dv['explicit'] is None or isinstance(dv['explicit'], bool)) or dv['pos'] not in ('before', 'after'):
                 return False
@@ -179,7 +206,10 @@ def valid(case):
         d = cfg['defaults']
         if d is not None:
             if set(d) - {'require_csrf', 'token', 'header', 'safe_methods', 'check_origin', 'allow_no_origin', 'callback',
-                          'safe_kind'}:
+                          'safe_kind', 'positional'}:
+                return False
+            if 'positional' in d and not (isinstance(d['positional'], int) and not isinstance(d['positional'], bool)
+                                           and 0 <= d['positional'] <= 7):
                 return False
             if ('safe_kind' in d) and ('safe_methods' not in d or d['safe_kind'] not in SAFE_KINDS):
                 return False
@@ -302,6 +332,11 @@ def setup(tier):
     extra.register_evidence_patch(ID)
 
 
+# documented signature of Configurator.set_default_csrf_options (narr/api docs): order and defaults
+DOC_ORDER = ['require_csrf', 'token', 'header', 'safe_methods', 'check_origin', 'allow_no_origin', 'callback']
+DOC_DEFAULTS = {'require_csrf': True, 'token': 'csrf_token', 'header': 'X-CSRF-Token',
+                'safe_methods': ('GET', 'HEAD', 'OPTIONS', 'TRACE'), 'check_origin': True, 'allow_no_origin': False,
+                'callback': None}
 CB_RET = {'ret-none': None, 'ret-0': 0, 'ret-1': 1, 'ret-str': 'no', 'ret-list': []}
 
 
@@ -346,6 +381,62 @@ def _wrapped_factory(policy):
     return factory
 
 
+_SCAN_FN = ("from pyramid.view import view_config\n"
+            "@view_config(**KW)\n"
+            "def scanned(context, request):\n"
+            "    return VIEW(context, request)\n")
+_SCAN_CLS = ("from pyramid.view import view_config\n"
+             "class Base:\n"
+             "    def __init__(self, request):\n"
+             "        self.request = request\n"
+             "Base = PRE(Base)\n"
+             "class Scanned(Base):\n"
+             "    @view_config(**KW)\n"
+             "    def run(self):\n"
+             "        return VIEW(None, self.request)\n"
+             "Scanned = POST(Scanned)\n"
+             "del Base\n")
+_scan_count = [0]
+
+
+def _scan_module(kw, view, vc, settings):
+    """a throw-away module whose single view is declared with @view_config(**kw) -- on a function, or on a method of a class
+    that gets its __view_defaults__ by decorator / plain attribute / inheritance -- to be registered by config.scan(module)"""
+    import linecache
+    import sys
+    import types
+    from pyramid.view import view_defaults
+    _scan_count[0] += 1
+    name = 'c12_scanned_%d' % _scan_count[0]
+    mod = types.ModuleType(name)
+    mod.KW, mod.VIEW = dict(kw), view
+    ident = lambda cls: cls
+    mod.PRE = mod.POST = ident
+    if vc is not None:
+        if vc['how'] == 'inherited':
+            mod.PRE = view_defaults(**settings)
+        elif vc['how'] == 'decorator':
+            mod.POST = view_defaults(**settings)
+        else:
+            def set_attr(cls):
+                cls.__view_defaults__ = dict(settings)
+                return cls
+            mod.POST = set_attr
+    src = _SCAN_FN if vc is None else _SCAN_CLS
+    linecache.cache[name] = (len(src), None, src.splitlines(True), name)     # view_config reads its source line
+    sys.modules[name] = mod
+    exec(compile(src, name, 'exec'), mod.__dict__)
+    return mod
+
+
+def _store_name(cfg):
+    """the cookie name / session key under which the configured policy keeps the token"""
+    pa = cfg.get('policy_args')
+    if pa and cfg['storage'] in ('cookie', 'session'):
+        return pa['name']
+    return 'csrf_token' if cfg['storage'] == 'cookie' else '_csrft_'
+
+
 def _app(cfg):
     key = json.dumps(cfg, sort_keys=True)
     hit = _apps.get(key)
@@ -361,10 +452,16 @@ def _app(cfg):
     if cfg['storage'] == 'legacy':
         policy = I['csrf'].LegacySessionCSRFStoragePolicy()
     elif cfg['storage'] == 'session':
-        policy = I['csrf'].SessionCSRFStoragePolicy()
+        pa = cfg.get('policy_args')
+        policy = (I['csrf'].SessionCSRFStoragePolicy() if not pa else
+                  I['csrf'].SessionCSRFStoragePolicy(pa['name']) if pa.get('positional') else
+                  I['csrf'].SessionCSRFStoragePolicy(key=pa['name']))
         policy._token_factory = _wrapped_factory(policy)
     else:
-        policy = I['csrf'].CookieCSRFStoragePolicy()
+        pa = cfg.get('policy_args')
+        policy = (I['csrf'].CookieCSRFStoragePolicy() if not pa else
+                  I['csrf'].CookieCSRFStoragePolicy(pa['name']) if pa.get('positional') else
+                  I['csrf'].CookieCSRFStoragePolicy(cookie_name=pa['name']))
         policy._token_factory = _wrapped_factory(policy)
     log = {'ran': 0, 'cb': []}
     d = cfg['defaults']
@@ -392,15 +489,50 @@ def _app(cfg):
                 kind = d.get('safe_kind', 'tuple')
                 kw['safe_methods'] = {'tuple': tuple, 'list': list, 'set': set, 'frozenset': frozenset, 'iter': iter,
                                       'gen': lambda l: (x for x in l)}[kind](sm)
+            kw.pop('positional', None)
             if d.get('callback') is not None:
                 kw['callback'] = _callback(d['callback'], log['cb'])
-            c.set_default_csrf_options(**kw)
+            # the first k options POSITIONALLY, in the documented order (an option the case omits: its documented default)
+            args = [kw.pop(nm) if nm in kw else DOC_DEFAULTS[nm] for nm in DOC_ORDER[:d.get('positional', 0)]]
+            c.set_default_csrf_options(*args, **kw)
 
     def st_view(c):
         vkw = {}
         if cfg['explicit'] is not None:
             vkw['require_csrf'] = 'yes' if cfg['explicit'] == 'other' else pyval(cfg['explicit'])
+        elif cfg.get('explicit_none_passed'):
+            vkw['require_csrf'] = None
+        target = view
+        vc = cfg.get('view_class')
+        if vc is not None:
+            from pyramid.view import view_defaults
+
+            class Base:
+                def __init__(self, request):
+                    self.request = request
+
+                def run(self):
+                    return view(None, self.request)
+            settings = {'require_csrf': pyval(vc['require_csrf'])} if 'require_csrf' in vc else {}
+            if vc['how'] == 'attr':
+                Base.__view_defaults__ = dict(settings)
+                target = Base
+            elif vc['how'] == 'decorator':
+                target = view_defaults(**settings)(Base)
+            else:
+                Parent = view_defaults(**settings)(Base)
+
+                class Child(Parent):
+                    pass
+                target = Child
+            vkw['attr'] = 'run'
         decoys = cfg.get('decoys', [])
+        if cfg.get('route') == 'scan':
+            vkw.pop('attr', None)                # inferred by view_config from the class scope
+            if cfg['exception_only']:
+                vkw.update(context=Boom, exception_only=True)
+            settings_ = ({'require_csrf': pyval(vc['require_csrf'])} if vc and 'require_csrf' in vc else {})
+            scan_target = _scan_module(vkw, view, vc, settings_)
 
         def add_decoys(pos):
             for i, dv in enumerate(decoys):
@@ -417,9 +549,16 @@ def _app(cfg):
             def raiser(context, request):
                 raise Boom()
             c.add_view(raiser, require_csrf=False)
-            c.add_view(view, context=Boom, exception_only=True, **vkw)
+            if cfg.get('route') == 'scan':
+                c.scan(scan_target)
+            elif cfg.get('exc_api'):
+                c.add_exception_view(target, context=Boom)
+            else:
+                c.add_view(target, context=Boom, exception_only=True, **vkw)
+        elif cfg.get('route') == 'scan':
+            c.scan(scan_target)
         else:
-            c.add_view(view, **vkw)
+            c.add_view(target, **vkw)
         add_decoys('after')
 
     stmts = {'session': st_session, 'policy': st_policy, 'defaults': st_defaults, 'view': st_view}
@@ -476,10 +615,10 @@ def _environ(cfg, r):
         env['HTTP_' + ascii_upper(k).replace('-', '_')] = v
     cookies = []
     if cfg['storage'] in ('legacy', 'session'):
-        state = {} if r['stored'] is None else {'_csrft_': r['stored']}
+        state = {} if r['stored'] is None else {_store_name(cfg): r['stored']}
         cookies.append('session=' + _Ser().dumps([1.0, 1.0, state]).decode('ascii'))
     elif r['stored'] is not None:
-        cookies.append('csrf_token="%s"' % r['stored'] if r.get('cookie_quoted') else 'csrf_token=' + r['stored'])
+        cookies.append(('%s="%s"' if r.get('cookie_quoted') else '%s=%s') % (_store_name(cfg), r['stored']))
     if cookies:
         env['HTTP_COOKIE'] = '; '.join(cookies)
     body = up.urlencode([tuple(kv) for kv in r['body']]).encode('ascii')
@@ -541,11 +680,11 @@ def _effective(cfg):
 def _held(cfg, jar):
     """the token the client's cookies hold (None = none)"""
     if cfg['storage'] == 'cookie':
-        return jar.get('csrf_token')
+        return jar.get(_store_name(cfg))
     if 'session' not in jar:
         return None
     try:
-        return _Ser().loads(jar['session'].encode('ascii'))[2].get('_csrft_')
+        return _Ser().loads(jar['session'].encode('ascii'))[2].get(_store_name(cfg))
     except Exception:
         return None
 
@@ -568,9 +707,9 @@ def _run_seq(case):
         jar = {}
         if st is not None:
             if cfg['storage'] == 'cookie':
-                jar['csrf_token'] = st
+                jar[_store_name(cfg)] = st
             else:
-                jar['session'] = _Ser().dumps([1.0, 1.0, {'_csrft_': st}]).decode('ascii')
+                jar['session'] = _Ser().dumps([1.0, 1.0, {_store_name(cfg): st}]).decode('ascii')
         jars.append(jar)
     known = set(s for s in case['clients'] if s is not None)
     out = []
@@ -732,7 +871,7 @@ def _req_wire(cfg, r):
     post = [[k, v] for k, v in clone.POST.items() if isinstance(v, str)]
     query = [[k, v] for k, v in clone.GET.items()]
     if cfg['storage'] == 'cookie':
-        stored = clone.cookies.get('csrf_token')
+        stored = clone.cookies.get(_store_name(cfg))
     else:
         stored = r['stored']
     fresh = UNGUESSABLE if cfg['storage'] == 'legacy' else FRESH
@@ -785,7 +924,12 @@ def to_wire(case):
                arg('check_origin', truth), arg('allow_no_origin', truth), d.get('callback') is not None]]
     ex = cfg['explicit']
     s = cfg['settings']
-    cw = [[ex] if isinstance(ex, bool) else [], dw, cfg['exception_only'],
+    def level(given, val):
+        return [] if not given else [[val]] if isinstance(val, bool) else [[]]
+    vc = cfg.get('view_class')
+    cls_level = level(vc is not None and 'require_csrf' in vc, vc.get('require_csrf') if vc else None)
+    call_level = level(ex is not None or bool(cfg.get('explicit_none_passed')), ex)
+    cw = [[cls_level, call_level], dw, cfg['exception_only'],
           {'legacy': 0, 'session': 1, 'cookie': 2}[cfg['storage']],
           [] if s is None else [s] if isinstance(s, str) else list(s),
           _defaults_first(cfg)]
@@ -956,6 +1100,9 @@ def _reached(case, r):
     cfg = case['config']
     d = cfg['defaults']
     ex = cfg['explicit']
+    vc_ = cfg.get('view_class')
+    if ex is None and not cfg.get('explicit_none_passed') and vc_ and isinstance(vc_.get('require_csrf'), bool):
+        ex = vc_['require_csrf']
     if d is None:
         req, tok, hdr, safe, cb = False, 'csrf_token', 'X-CSRF-Token', ['GET', 'HEAD', 'OPTIONS', 'TRACE'], None
     else:
@@ -1006,6 +1153,21 @@ def kinds(case, obs):
         ks.append('callback-nonbool-return')
     if 'safe_kind' in d_:
         ks.append('safe-methods-as-' + d_['safe_kind'])
+    vc_ = case['config'].get('view_class')
+    if vc_ is not None:
+        ks.append('view-class-%s-%s' % (vc_['how'], 'with-default' if 'require_csrf' in vc_ else 'plain'))
+        if 'require_csrf' in vc_ and (case['config']['explicit'] is not None or case['config'].get('explicit_none_passed')):
+            ks.append('view-option-both-levels' + ('-call-none' if case['config']['explicit'] is None else ''))
+    if case['config'].get('explicit_none_passed'):
+        ks.append('explicit-none-passed')
+    if case['config'].get('policy_args'):
+        ks.append('policy-custom-name-' + ('positional' if case['config']['policy_args'].get('positional') else 'keyword'))
+    if case['config'].get('exc_api'):
+        ks.append('add-exception-view')
+    if case['config'].get('route'):
+        ks.append('route-%s-%s' % (case['config']['route'], 'method' if vc_ else 'function'))
+    if 'positional' in d_:
+        ks.append('directive-positional-%d' % d_['positional'])
     if any(r_.get('cookie_quoted') for r_ in case['reqs']):
         ks.append('cookie-quoted')
     try:
